@@ -32,7 +32,8 @@ Print Assumptions C16_gen_is_golden_fs.
 Theorem C16_gen_is_golden_frame :
   AlayLayout.frame_size = AlayGolden.frame_size /\ AlayLayout.start_flag = AlayGolden.start_flag /\
   AlayLayout.end_flag = AlayGolden.end_flag /\ AlayLayout.length_field = AlayGolden.length_field /\
-  AlayLayout.block_order = AlayGolden.block_order /\ AlayLayout.clock_read = AlayGolden.clock_read.
+  AlayLayout.block_order = AlayGolden.block_order /\ AlayLayout.clock_read = AlayGolden.clock_read /\
+  AlayLayout.mode_codes = AlayGolden.mode_codes.
 Proof. exact gen_golden_frame. Qed.
 Print Assumptions C16_gen_is_golden_frame.
 Theorem C16_gen_is_golden_env :
@@ -161,6 +162,23 @@ Theorem C16_limit_bits_agree : forall e b b', length b = AlayLayout.axis_size ->
     getn AlayLayout.axis_table "Rate_Limit" b' = Some (VBool (v_max e <? Z.abs v)).
 Proof. exact limit_bits_agree. Qed.
 Print Assumptions C16_limit_bits_agree.
+
+(* ---------- command histories: the recorded mode command is a documented code; subsystems do not
+   share status ---------- *)
+Theorem C16_received_mode_documented : forall m,
+  In (received_mode AlayLayout.mode_codes m) AlayLayout.mode_codes.
+Proof. exact received_mode_documented. Qed.
+Print Assumptions C16_received_mode_documented.
+
+Theorem C16_received_mode_known : forall m, In m AlayLayout.mode_codes ->
+  received_mode AlayLayout.mode_codes m = m.
+Proof. exact received_mode_known. Qed.
+Print Assumptions C16_received_mode_known.
+
+Theorem C16_assignment_touches_one_block : forall descs ops st j,
+  (forall o, In o ops -> fst o <> j) -> nth_error (sys_run descs ops st) j = nth_error st j.
+Proof. exact sys_run_untouched. Qed.
+Print Assumptions C16_assignment_touches_one_block.
 
 (* ---------- known finding: the full read-back statement fails for negative version components ----------
    Full statement (refuted): forall f v, accepts e f v -> set e f v b = Some b' -> get f b' = Some v
